@@ -268,7 +268,7 @@ def runLoopO : Nat → Nat → St → OSrc → Script → Trace
     | (.error (.stop .pending), _) => st.finish .waiting
     | (.error (.stop _), _) => st.finish .closed
     | (.ok h, s0) =>
-      match framingOf h.headers with
+      match framingFor h.version h.headers with
       | .error .expectationFailed => (st.emit 417 (some (printError 417 h.version true)) false).finish .closed
       | .error _ => (st.emit 400 (some (printError 400 h.version false)) false).finish .closed
       | .ok fr =>
